@@ -511,7 +511,6 @@ class Fn:
                 flat |= set(v[1])
             else:
                 flat.add(v)
-        flat.discard(('cyc',))
         if not flat:
             return ('cyc',)
         if len(flat) > 1:
@@ -592,33 +591,38 @@ class Fn:
                 return (self._project(val, rp[len(wp):]), True)
             if ov == 1:
                 return (('partial', self.call_expr(bi)), False)
-        # may-write through references captured by a closure that is handed to the callee
+        # may-write through &mut arguments and through references captured by a closure handed to the callee.
+        # Assumption (documented): a callee never *retargets* a `&mut &mut T` it was given; it may write through it.
+        callee = t['resolved'][0] if t['resolved'] else t['callee']
+        targets = []
         for a in t['args']:
             if a['k'] not in ('move', 'copy') or a['place']['p']:
                 continue
             lt = self.locals[a['place']['l']]['ty']
-            if 'closure' not in lt.lower():
-                continue
-            pv = self.value_of_local(a['place']['l'], pt)
-            for x in walk(pv):
-                if isinstance(x, tuple) and x[0] == 'ref' and self.root_of(x[1]) == rroot:
-                    if self._overlap(x[1], rlv) or self._overlap(rlv, x[1]):
-                        return (('modby', t['resolved'][0] if t['resolved'] else t['callee'], bi), False)
-        # may-write through &mut arguments
-        for a in t['args']:
-            if a['k'] not in ('move', 'copy'):
-                continue
-            pl = a['place']
-            lt = self.locals[pl['l']]['ty'] if not pl['p'] else None
-            if lt is None or not lt.startswith("&'{erased} mut "):
-                continue
-            pv = self.value_of_local(pl['l'], pt)
-            for alt in alts(pv):
-                tgt = self._deref(alt)
-                if self.root_of(tgt) == rroot:
-                    # covers? a callee may or may not write: never a kill
-                    if self._overlap(tgt, rlv) or self._overlap(rlv, tgt):
-                        return (('modby', t['resolved'][0] if t['resolved'] else t['callee'], bi), False)
+            if lt.startswith("&'{erased} mut "):
+                pv = self.value_of_local(a['place']['l'], pt)
+                for alt in alts(pv):
+                    targets.append(self._deref(alt))
+            elif 'closure' in lt.lower():
+                pv = self.value_of_local(a['place']['l'], pt)
+                for x in walk(pv):
+                    if isinstance(x, tuple) and x[0] == 'ref':
+                        targets.append(x[1])
+        for tgt in targets:
+            troot = self.root_of(tgt)
+            if troot == rroot:
+                is_ptr_local = tgt[0] == 'local' and self.locals[tgt[1]]['ty'].startswith('&')
+                if is_ptr_local and rlv == tgt:
+                    continue   # the pointer variable itself is not retargeted
+                if self._overlap(tgt, rlv) or self._overlap(rlv, tgt):
+                    return (('modby', callee, bi), False)
+            if tgt[0] == 'local' and self.locals[tgt[1]]['ty'].startswith('&') and rroot != tgt:
+                # a pointer local was lent out mutably: its pointee may be written
+                pv = self.value_of_local(tgt[1], pt)
+                for alt in alts(pv):
+                    pointee = self._deref(alt)
+                    if self.root_of(pointee) == rroot and (self._overlap(pointee, rlv) or self._overlap(rlv, pointee)):
+                        return (('modby', callee, bi), False)
         return None
 
     # ---------------- values
